@@ -23,7 +23,7 @@ def conc_cfg(cap=200, kind="opt", minseg=8, retries=2, backend="vec", unify=Fals
     return c
 
 
-def run_conc(binary, drivers, tag, timeout=1800):
+def run_conc(binary, drivers, tag, timeout=1800, keep_files=False):
     """Run conc drivers; a stuck driver ends the process (exit 3): restart with the remaining drivers."""
     wd = rv.ensure_dir(os.path.join(rv.WORK, "conc", tag))
     tfile = os.path.join(wd, "trace.ndjson")
@@ -55,7 +55,8 @@ def run_conc(binary, drivers, tag, timeout=1800):
         part += 1
     with open(tfile, "w") as f:
         f.writelines(out_lines)
-    shutil.rmtree(os.path.join(wd, "files"), ignore_errors=True)
+    if not keep_files:
+        shutil.rmtree(os.path.join(wd, "files"), ignore_errors=True)
     return tfile
 
 
@@ -111,25 +112,38 @@ def tla_op(op):
     return "[" + ", ".join(parts) + "]"
 
 
-def write_mcsync(wd, name, cfg, setup_text, progs, emit=False, liveness=False, invariants=True, hb=False):
+def data_off(cfg):
+    return 32 if (cfg.get("unify") or cfg.get("backend") == "file") else 1
+
+
+def write_mcsync(wd, name, cfg, setup_text, progs, emit=False, liveness=False, invariants=True, hb=False, crash=False):
     rv.ensure_dir(wd)
     n = len(progs)
     with open(os.path.join(wd, name + ".tla"), "w") as f:
-        f.write("---- MODULE %s ----\nEXTENDS %s\n" % (name, "MCSyncHB" if hb else "MCSync"))
+        f.write("---- MODULE %s ----\nEXTENDS %s\n" % (name, "MCCrash" if crash else "MCSyncHB" if hb else "MCSync"))
         f.write("mcThreads == 0..%d\n" % (n - 1))
         f.write("mcProg == %s\n" % " @@ ".join("(%d :> <<%s>>)" % (i, ", ".join(tla_op(o) for o in p)) for i, p in enumerate(progs)))
         f.write("mcSetup == %s\n" % setup_text.replace("REFS0", str(refs0(cfg, progs))))
         f.write("====\n")
     with open(os.path.join(wd, name + ".cfg"), "w") as f:
-        if hb:
+        if crash:
+            f.write("SPECIFICATION %s\nVIEW CView\nCONSTANTS\n" % ("CFairSpec" if liveness else "CSpec"))
+        elif hb:
             f.write("SPECIFICATION HSpec\nVIEW HView\nCONSTANTS\n")
         else:
             f.write("SPECIFICATION %s\nVIEW View\nCONSTANTS\n" % ("MCFairSpec" if liveness else "MCSpec"))
         f.write("  Threads <- mcThreads\n  Prog <- mcProg\n  Setup <- mcSetup\n")
         f.write("  Cap = %d\n  DataOff = %d\n  Kind = \"%s\"\n  MinSeg0 = %d\n  MaxRetries = %d\n" % (
-            cfg["cap"], 1, cfg["kind"], cfg["minseg"], cfg.get("retries", 5)))
-        if not hb:
+            cfg["cap"], data_off(cfg), cfg["kind"], cfg["minseg"], cfg.get("retries", 5)))
+        if not hb and not crash:
             f.write("  Emit = %s\n" % ("TRUE" if emit else "FALSE"))
+        if crash:
+            if invariants:
+                f.write("INVARIANTS LiveDisjoint LiveInBounds LiveIntact NoOutOfBounds CursorInBounds\n")
+            if liveness:
+                f.write("PROPERTY ProbeTerminates\n")
+            f.write("CHECK_DEADLOCK FALSE\n")
+            return name + ".tla", name + ".cfg"
         if hb:
             f.write("INVARIANTS NoRace\n")
         elif invariants:
@@ -161,6 +175,11 @@ def violated_property(out):
     return None
 
 
+def parse_crash_at(out):
+    ms = re.findall(r"crashAt = (-?\d+)", out)
+    return int(ms[-1]) if ms else None
+
+
 def parse_sched_lines(out):
     res = []
     for line in out.splitlines():
@@ -183,7 +202,7 @@ def write_tracesync(wd, name, cfg, setup_text, progs):
         f.write("SPECIFICATION TSpec\nCONSTANTS\n")
         f.write("  Threads <- mcThreads\n  Prog <- mcProg\n  Setup <- mcSetup\n")
         f.write("  Cap = %d\n  DataOff = %d\n  Kind = \"%s\"\n  MinSeg0 = %d\n  MaxRetries = %d\n" % (
-            cfg["cap"], 1, cfg["kind"], cfg["minseg"], cfg.get("retries", 5)))
+            cfg["cap"], data_off(cfg), cfg["kind"], cfg["minseg"], cfg.get("retries", 5)))
         f.write("POSTCONDITION Post\nCHECK_DEADLOCK FALSE\n")
     return name + ".tla", name + ".cfg"
 
